@@ -46,7 +46,7 @@ ASSUMPTIONS = [
     "for such roots, type lists only contain types that no nn.Module-internal attribute is an instance of: save(skip=[dict]) or [bool] removes nn.Module's own _parameters / training "
     "entries and skip=[torch.Tensor] does not reach registered parameters / buffers (they sit in nn.Module's dicts) - observed on the unchanged tree, reported, not judged",
 ]
-BUDGET = {"quick": {"soft_s": 150}, "thorough": {"soft_s": 900}}
+BUDGET = {"quick": {"soft_s": 300}, "thorough": {"soft_s": 1200}}
 MIN_EVALUATIONS = {"quick": 150, "thorough": 2000}
 REQUIRED_COUNTERS = ["eval:save_time_skip", "eval:load_time_skip", "eval:save_and_load_skip", "eval:ptycho_skip_forms_differ", "eval:ptycho_skipped_name_present",
                      "eval:root_hybrid_skip", "eval:root_hybrid_state_dict", "eval:root_hybrid_named_modules"]
